@@ -108,6 +108,14 @@ func secRun(in []byte) (interface{}, error) {
 		}
 		paths = append(paths, "incremental sync with cut + restart")
 	}
+	if raw, ok := cfg.Sub["rump"]; ok {
+		if _, err := ruRun(raw); err != nil {
+			return nil, err
+		}
+		conf.Options.SourcePasswordRaw = sentinels["source.password_raw"]
+		conf.Options.TargetPasswordRaw = sentinels["target.password_raw"]
+		paths = append(paths, "rump: scan, dump, restore, big-key expansion, vanished keys")
+	}
 	sink.SetSecrets(secrets...)
 	// ---- checkpoint load and supervisor with credentials
 	srv := mredis.New(mredis.Options{Password: sentinels["target.password_raw"]})
